@@ -102,7 +102,7 @@ def r2_rewire(ctx):
                 if tgt.name == nd.name:
                     ins = tgt.fields.get("inputs")
                 else:  # freshly constructed node: inputs passed as keywords
-                    ins = {k: v for k, v in tgt.kwargs.items() if k in new} or tgt.fields.get("inputs")
+                    ins = tgt.fields.get("inputs") or {k: v for k, v in tgt.kwargs.items() if k in new}  # the final state of the object wins over its constructor arguments
             elif isinstance(tgt, Term):
                 st = [e for e in p.effects if e.kind == "store" and e.data.get("attr") == "inputs" and e.data.get("base") == tgt]
                 if st:
@@ -128,6 +128,28 @@ def r2_rewire(ctx):
         if not kept and not any(v.func == fi.qual for v in ctx.violations):
             ctx.undecided("C11.R2", loc(fi), f"{suffix}: no path keeps the node on the model")
     ctx.floor("C11.R2.callbacks", n, 8)
+    # the renaming of spliced sub-graph nodes is injective: sub-graph nodes 'n' and 'pre.n' (a name may contain the parent's name and a dot)
+    # spliced into parent 'pre' get different names — Splicer.graph strips the prefix again to find the mapped leaves
+    from .common import ctor_env
+    for suffix, pname in (("expand.Splicer.processor", "p"), ("expand.Splicer.sink", "s"), ("expand.Splicer.source", "s")):
+        fi = repo.func(f"{G}.{suffix}")
+        names = {}
+        for inner in ("n", "pre.n"):
+            env = {**ctor_env(repo, f"{G}.expand.Splicer", {"name": "pre", "inputs": {}, "input_map": None, "outputs": [], "output_map": None}),
+                   "self.name": "pre", "self.outputs": {}, "self.inputs": {}}
+            nd = _node(inner, {})
+            for p in Interp(repo, inline={f"{NODE}.copy"}, max_iter=2).explore(fi, env=env, args={pname: nd, "inputs": {}}):
+                rv = p.exit[1] if p.exit[0] == "return" else None
+                if isinstance(rv, Obj) and isinstance(rv.fields.get("name"), str):
+                    names[inner] = rv.fields["name"]
+        if len(names) == 2 and names["n"] == names["pre.n"]:
+            ctx.violation("C11.R2", fi.qual, loc(fi), "spliced names are injective",
+                          f"{suffix}: sub-graph nodes 'n' and 'pre.n' spliced into parent 'pre' are both named {names['n']!r}: two nodes of the result share a name, and the leaf "
+                          f"lookup of the expansion (which strips the parent prefix again) takes one for the other")
+        elif len(names) == 2:
+            ctx.ok("C11.R2", loc(fi), f"{suffix}: 'n' -> {names['n']!r}, 'pre.n' -> {names['pre.n']!r}")
+        else:
+            ctx.undecided("C11.R2", loc(fi), f"{suffix}: spliced names not evaluable on the model ({names})")
     # a transformer class in the package we do not know about?
     known = {s.split(".")[1] for s, _ in CALLBACKS}
     for q, ci in repo.classes.items():
@@ -559,3 +581,42 @@ def r11_cut_names_injective(ctx):
 
 
 RULES.append(r11_cut_names_injective)
+
+
+def r12_outputs_resolved_by_name(ctx):
+    """C11.R12: when a transformation re-connects a consumer to the transformed version of its parent, the parent's output is looked up *as an
+    output* — for any output name.  A plain attribute lookup on the transformed node finds the node's own attributes and methods first: an
+    output called `payload`, `name`, `inputs`, `outputs` or `copy` would hand the consumer that attribute instead of the output, and an
+    output whose name attribute-style access refuses (leading underscore, …) would fall back to a dangling placeholder.  Decided on
+    `Transformer.__transform_output` for a transformed parent that is a graph Node with outputs named like its attributes."""
+    repo = ctx.repo
+    fi = repo.func(f"{G}.transform.Transformer.__transform_output")
+    ctx.analysed(fi.qual)
+    n = 0
+    for oname in ("data", "payload", "name", "copy", "_mask", "0"):
+        parent = _node("P", outputs=[oname], payload=41)
+        out = _out(Atom("OLD_P"), oname)
+        ip = Interp(repo, inline={f"{NODE}.get_output", f"{NODE}.__getattr__", f"{NODE}._make_output"},
+                    facts={"hasattr(self,'output')": False})
+        ps = [p for p in ip.explore(fi, args={"node": parent, "output": out}) if not any(d.key.startswith("hasattr(self") and d.value for d in p.decisions)]
+        ctx.evals(len(ps))
+        for p in ps:
+            n += 1
+            rv = p.exit[1] if p.exit[0] == "return" else None
+            good = isinstance(rv, Obj) and rv.cls == OUT and ({**rv.kwargs, **rv.fields}.get("name", rv.args[1] if len(rv.args) > 1 else None) == oname) \
+                and getattr(({**rv.kwargs, **rv.fields}.get("parent", rv.args[0] if rv.args else None)), "name", None) == parent.name
+            if not good:
+                ctx.violation("C11.R12", fi.qual, loc(fi), "a parent's output is looked up as an output",
+                              f"transformed parent P declares the output {oname!r}; the consumer of P.{oname} is re-connected to {vkey(rv)[:100]} ({p.exit[0]}) instead of the "
+                              f"output {oname!r} of P — an attribute lookup finds the node's own `{oname}` attribute / method first (or refuses the name), so copying, renaming, "
+                              f"de-duplicating, fusing or expanding the graph changes what the consumer reads", row={"output": oname})
+                break
+        else:
+            continue
+        break
+    else:
+        ctx.ok("C11.R12", loc(fi), "outputs named like attributes, methods or private names are re-connected as outputs")
+    ctx.floor("C11.R12.paths", n, 1)
+
+
+RULES.append(r12_outputs_resolved_by_name)
